@@ -511,6 +511,18 @@ fn deviations(kind: &str) -> Vec<Dev> {
             }
         }
     }
+    // three and four segments carrying the same huge delta (running sums beyond 2^63 if kept in i64)
+    for arity in [1usize, 4, 5] {
+        for pos in 0..arity {
+            for v in [(1i128 << 62) - 1, -((1i128 << 62) - 1), (1i128 << 61) + 5] {
+                let mut f = vec![0i128; arity];
+                f[pos] = v;
+                let seg = vlq_write(&f);
+                d.push(Dev::Set(mptr.into(), json!(format!("{seg},{seg},{seg},{seg}"))));
+                d.push(Dev::Set(mptr.into(), json!(format!("{seg};{seg};{seg},{seg};{seg}"))));
+            }
+        }
+    }
     // the 13-digit all-ones value and other long encodings
     for s in ["////////////f", "////////////fAAA", "A////////////f", "AAA////////////f", "gggggggggggggA", "////////////////", "g", "AAAAAA", "AA", ",,,;;;,", ";;;;;;;;;;;;;;;;;;;;AAAA", "AAAA,AAAA,AAAA,AAAA,AAAA,AAAA,AAAA,AAAA,AAAA,AAAA,AAAA,AAAA,AAAA,AAAA,AAAA,AAAA,AAAA,AAAA"] {
         d.push(Dev::Set(mptr.into(), json!(s)));
